@@ -180,6 +180,10 @@ func (li *lockInfo) At(p Point) lockset {
 type Protected struct {
 	Pkg, Type, Mutex string
 	Fields           []string
+	// Exclusive: the field holds an object that is not safe for concurrent
+	// use (a database connection): every access, read or write, needs the
+	// mutex held exclusively - a shared (read) lock is not enough.
+	Exclusive bool
 }
 
 type lockException struct {
@@ -335,7 +339,7 @@ func (c *Ctx) checkLockDiscipline(pr Protected, exceptions []lockException, need
 			mkey := mutexKeyFor(f.Info(), a.Base, pr.Mutex)
 			held := ls(f).At(a.P)[mkey]
 			want := lockR
-			if a.Write && needWriteLock {
+			if (a.Write && needWriteLock) || pr.Exclusive {
 				want = lockW
 			}
 			if held >= want {
@@ -343,13 +347,18 @@ func (c *Ctx) checkLockDiscipline(pr Protected, exceptions []lockException, need
 				continue
 			}
 			// precondition inference: base is a parameter or receiver of the top declaration
+			// (not when the function itself holds the mutex in shared mode: no caller can upgrade that)
 			root := rootObj(f.Info(), a.Base)
-			if id, ok := ast.Unparen(a.Base).(*ast.Ident); ok && root != nil && f.Decl != nil && isParamOrRecv(f, root) && id != nil {
-				needs = append(needs, need{f, root, a.Write && needWriteLock, inst + " at " + a.Pos()})
+			if id, ok := ast.Unparen(a.Base).(*ast.Ident); ok && held == lockNone && root != nil && f.Decl != nil && isParamOrRecv(f, root) && id != nil {
+				needs = append(needs, need{f, root, (a.Write && needWriteLock) || pr.Exclusive, inst + " at " + a.Pos()})
 				continue
 			}
 			_ = key
-			c.Bad(inst, a.Pos(), fmt.Sprintf("%s.%s accessed without %s held (lockset here: %s)", pr.Type, a.Field.Name(), pr.Mutex, locksetString(ls(f).At(a.P))))
+			how := "without " + pr.Mutex + " held"
+			if held == lockR && want == lockW {
+				how = "with " + pr.Mutex + " held only for reading (shared); this state needs the exclusive lock"
+			}
+			c.Bad(inst, a.Pos(), fmt.Sprintf("%s.%s accessed %s (lockset here: %s)", pr.Type, a.Field.Name(), how, locksetString(ls(f).At(a.P))))
 		}
 	}
 	// check preconditions at call sites (fixpoint over callers)
@@ -406,8 +415,14 @@ func (c *Ctx) checkLockDiscipline(pr Protected, exceptions []lockException, need
 				}
 			}
 			if callers == 0 {
-				// uncalled helper (or only used as a value): nothing can violate the precondition statically
-				c.OK(fmt.Sprintf("%s requires %s held", nd.f.Name, pr.Mutex), "no static caller in the module", nil)
+				if nd.f.Obj != nil && nd.f.Obj.Exported() {
+					// an exported function or method without a static caller is an entry point (an
+					// interface method, an HTTP handler): nobody can be holding the lock on its behalf
+					c.Bad(fmt.Sprintf("%s requires %s held", nd.f.Name, pr.Mutex), nd.f.Pos(nd.f.Decl), fmt.Sprintf("%s accesses protected state without taking %s and has no static caller that could hold it (%s)", nd.f.Name, pr.Mutex, nd.why))
+				} else {
+					// uncalled unexported helper (or only used as a value): nothing can violate the precondition statically
+					c.OK(fmt.Sprintf("%s requires %s held", nd.f.Name, pr.Mutex), "no static caller in the module", nil)
+				}
 			}
 		}
 		needs = next
